@@ -110,6 +110,9 @@ func runC08(p *Prog, r *Report) {
 	if want("C08.8") {
 		ruleReadErrorsSurface(p, r, "C08.8")
 	}
+	if want("C08.16") {
+		ruleErrorsPropagate(p, r, "C08.16", []string{"leveldb", "leveldb/journal", "leveldb/table", "leveldb/storage"}, 100)
+	}
 	if want("C08.15") {
 		// a failed flush wait is a failure of whoever waited: acknowledged writes must not be left behind a recorded sequence number
 		ruleTrSeqAfterFlush(p, r, "C08.15")
